@@ -25,11 +25,14 @@ import (
 var Progress atomic.Int64
 
 type ctxRec struct {
-	id       int
-	inst     string
-	token    string
-	ctx      context.Context
-	returned atomic.Bool
+	id         int
+	inst       string
+	token      string
+	ctx        context.Context
+	returned   atomic.Bool
+	blocking   bool
+	cancelSeen atomic.Bool // the blocking callback observed ctx.Done()
+	reported   bool        // final state already sampled once
 }
 
 type CtxState struct {
@@ -201,7 +204,6 @@ func (h scriptHealth) Check(ctx context.Context) bool {
 // ---- runner ----
 
 func (r *Runner) add(e Event) {
-	Progress.Add(1)
 	r.Tr.Add(e)
 }
 
@@ -285,7 +287,7 @@ func (r *Runner) build(i *inst) error {
 	}
 	i.el = el
 	el.OnPromote(func(ctx context.Context, token string) {
-		rec := &ctxRec{inst: is.Name, token: token, ctx: ctx}
+		rec := &ctxRec{inst: is.Name, token: token, ctx: ctx, blocking: is.BlockPromote}
 		r.mu.Lock()
 		rec.id = len(r.ctxs) + 1
 		r.ctxs = append(r.ctxs, rec)
@@ -294,6 +296,8 @@ func (r *Runner) build(i *inst) error {
 		if is.BlockPromote {
 			select {
 			case <-ctx.Done():
+				rec.cancelSeen.Store(true)
+				r.add(Event{Kind: "cb.promote.ctxdone", Inst: is.Name, Token: token, Ctx: rec.id})
 			case <-r.quit:
 			}
 		}
@@ -408,7 +412,13 @@ func (r *Runner) doStop(i *inst, v *StopVariant, teardown bool) {
 	}
 	// claim check at return of a stop call (C02 ii)
 	r.St.Lock()
-	r.add(Event{Kind: "api.return", Inst: i.spec.Name, API: name, Ret: errStr(err), S: desc, Flag: i.el.IsLeader()})
+	re := Event{Kind: "api.return", Inst: i.spec.Name, API: name, Ret: errStr(err), S: desc, Flag: i.el.IsLeader()}
+	if x := r.St.LiveLocked(i.spec.Group); x != nil {
+		re.RecOK = true
+		re.RecID, re.RecTok, _ = DecodeIDToken(x.Val)
+		re.Rev = x.Seq
+	}
+	r.add(re)
 	r.St.Unlock()
 	i.inStop.Add(-1)
 }
@@ -463,7 +473,13 @@ func (r *Runner) sample(tag string) {
 	cs := append([]*ctxRec(nil), r.ctxs...)
 	r.mu.Unlock()
 	for _, c := range cs {
-		r.add(Event{Kind: "ctx.state", Inst: c.inst, Ctx: c.id, Token: c.token, Flag: c.ctx.Err() != nil, OK: c.returned.Load()})
+		if !c.blocking || c.reported {
+			continue
+		}
+		if c.returned.Load() {
+			c.reported = true
+		}
+		r.add(Event{Kind: "ctx.state", Inst: c.inst, Ctx: c.id, Token: c.token, Flag: c.cancelSeen.Load() || (!c.returned.Load() && c.ctx.Err() != nil), OK: c.returned.Load()})
 	}
 	// record liveness at the sample
 	for g := range r.groups {
@@ -538,7 +554,17 @@ func (r *Runner) act(a *Action) {
 		r.St.SetPartition(a.Inst, false)
 		r.add(Event{Kind: "partition", Inst: a.Inst, Flag: false})
 	case "output":
-		r.St.OutsidePut(a.Inst, []byte(a.Val)) // Inst carries the key (group)
+		val := a.Val
+		if strings.Contains(val, "@OWNTOKEN@") {
+			tok := "none"
+			if x := r.St.LiveRecord(a.Inst); x != nil {
+				if _, t, _ := DecodeIDToken(x.Val); t != "" {
+					tok = t
+				}
+			}
+			val = strings.ReplaceAll(val, "@OWNTOKEN@", tok)
+		}
+		r.St.OutsidePut(a.Inst, []byte(val)) // Inst carries the key (group)
 	case "outdel":
 		r.St.OutsideDelete(a.Inst)
 	case "outexpire":
